@@ -213,6 +213,7 @@ def key_spec(c):
 def run(ctx, prog):
     from rules import shift
     shift.run(ctx, prog)
+    shift.run_signext(ctx, prog)
     E = {}
     for e in prog.enum("DeserializationError::Code"):
         for c in e["consts"]:
